@@ -61,6 +61,7 @@ func runC18(c *Check, tier string) {
 	// round 7: an interrupt in the middle of a blob write leaves nothing under the blob's final name
 	shareRule(c, "R18q", "the fs backend never opens a file for writing under its final cache key and publishes by renaming a closed temp file (same obligations as R07a): a write cut short by an interrupt leaves a stray temp file, not a truncated blob under a valid digest", 2, "R07a", func(sub *Check) { ruleR07a(sub) }, nil)
 	ruleNoInheritableDescriptors(c, "R18r")
+	rulePipedCommandsHaveWaitDelay(c, "R18s")
 }
 
 // R18k: exec.CommandContext kills the child when the context is cancelled unless Cmd.Cancel is replaced. The
